@@ -103,6 +103,12 @@ func (c *FrameCodec) Decode(src *sonic.ByteBuffer) (Frame, error) {
 func (c *FrameCodec) Encode(frame Frame, dst *sonic.ByteBuffer) error {
 	// TODO this can be improved: we can serialize directly in the buffer with zero-copy semantics
 
+	// A frame built without SetPayload (or a pooled one) may be longer than its header plus declared payload; only
+	// those bytes belong on the wire.
+	if end := frame.payloadOffset() + frame.PayloadLength(); end >= 0 && end < len(frame) {
+		frame = frame[:end]
+	}
+
 	// ensure the destination buffer can hold the serialized frame
 	dst.Reserve(frame.PayloadLength() + frameMaxHeaderLength)
 
